@@ -232,13 +232,13 @@ func c13ListCase(r *mon.Run, lc listCase, c mon.Case) {
 		for _, alt := range []struct {
 			name string
 			code jen.Code
-		}{{`Op("")`, jen.Op("")}, {`Id("")`, jen.Id("")}, {`Add(Empty())`, jen.Add(jen.Empty())}} {
+		}{{`Op("")`, jen.Op("")}, {`Id("")`, jen.Id("")}, {`Add(Empty())`, jen.Add(jen.Empty())}, {`Add(nil).Empty()`, jen.Add(nil).Empty()}, {`List().Empty()`, jen.List().Empty()}, {`Tag(nil).Empty()`, jen.Tag(nil).Empty()}, {`Null().Empty()`, jen.Null().Empty()}} {
 			got, f9 := rawOf(k.mk(lc.items(true, alt.code)...))
 			if f9 != "" || got != injected {
 				r.Violate("empty-not-separating", c, "%s: with %s in the place of Empty() the list renders (%s)\n%s\nwant the same as with Empty()\n%s", desc(), alt.name, f9, got, injected)
 			}
 		}
-		r.Count("empty_text_items_compared_with_Empty", 3)
+		r.Count("empty_text_items_compared_with_Empty", 7)
 	}
 	// Empty() takes part in separation exactly like a real item with no text
 	if lc.Empty >= 0 {
@@ -437,15 +437,23 @@ func c13GroupNull(r *mon.Run) {
 	for ci, k := range cons {
 		c := mon.Case{Gen: "group-null", Seed: r.Seed, Index: int64(ci)}
 		for pos := 0; pos <= 2; pos++ { // the placeholder before, between and after two real items
-			for _, chained := range []bool{false, true} {
+			for mode := 0; mode < 4; mode++ {
+				chained := mode%2 == 1
+				viaDo := mode >= 2 // the placeholder comes from g.Do with a callback that adds nothing
 				var ph *jen.Statement
 				st := k.fn(func(g *jen.Group) {
 					for i := 0; i <= 2; i++ {
 						if i == pos {
+							null := func() *jen.Statement {
+								if viaDo {
+									return g.Do(func(*jen.Statement) {})
+								}
+								return g.Null()
+							}
 							if chained {
-								g.Null().Id("lateq")
+								null().Id("lateq")
 							} else {
-								ph = g.Null()
+								ph = null()
 							}
 						}
 						if i < 2 {
